@@ -6,41 +6,39 @@
   cancellation of the caller's context at any step, `Close()` concurrent with everything. Messages are
   coloured *cur* / *stale* (see the header of `Model/CliConn.lean` for the abstraction and why it is
   sound). The theorems are consequences of a kernel-checked inductive invariant (the certificate
-  `Gen.CertCliConn.certCurrent`, 17 315 states, closed under `step`), so they hold for runs of any length
+  `Gen.CertCliConn.certCurrent`, 15 778 states, closed under `step`), so they hold for runs of any length
   and every interleaving of the modelled steps.
 
   What is proved is a property of the modelled state machine under the encoded semantics of channels,
   `select`, contexts and atomics. That the real code behaves like the model (Go scheduler, net.Conn) is
   what the `lts.cli` engine of the harness observes.
 
-  `sys current` stops at the first state in which `reconnect` installs a connection after `Close()` has
-  set `c.closed` (`raced`, a defect reported under C11); `sys patched` has no such states.
 -/
 import KmipModel.Lemmas.CliCert
 namespace Kmip.C10
 open Kmip.CliLts Kmip.CliConn Kmip.Gen.CertCliConn
 
 /-- the certificate contains the initial state and is closed under the successor function
-    (64 kernel-evaluated parts, `Lemmas/CliCertCur*.lean`). -/
+    (16 kernel-evaluated parts, `Lemmas/CliCertCur*.lean`). -/
 theorem cliconn_closed : closedUnder (sys current) codec certCurrent := CliCert.current_closed
 
 /-- no state of the certificate is bad. -/
-theorem cliconn_safe : safeOn codec (badPartial current) certCurrent := CliCert.current_safe
+theorem cliconn_safe : safeOn codec (bad current) certCurrent := CliCert.current_safe
 
 /-- 1. No call is ever handed a response that belongs to an abandoned (earlier) exchange: the ghost
     `stale`, set by exactly the `rx` hand-off of a stale token (`delivery_of_stale_is_flagged`), is
     never set. -/
 theorem no_stale_delivery {s : St} (h : Reachable (sys current) s) : s.stale = false :=
-  (CliCert.badPartial_false (CliCert.current_inv h)).1
+  (CliCert.bad_false (CliCert.current_inv h)).1
 
 /-- 2. A connection on which an exchange has been abandoned after its request was handed to the writer
     never carries a later exchange: no request is handed to the writer of a tainted connection. -/
 theorem abandoned_conn_not_reused {s : St} (h : Reachable (sys current) s) : s.reused = false :=
-  (CliCert.badPartial_false (CliCert.current_inv h)).2.1
+  (CliCert.bad_false (CliCert.current_inv h)).2.1
 
 /-- 3. The bound "one stale token per connection" of the model is never exceeded (it loses nothing). -/
 theorem one_stale_token_suffices {s : St} (h : Reachable (sys current) s) : s.overflow = false :=
-  (CliCert.badPartial_false (CliCert.current_inv h)).2.2.1
+  (CliCert.bad_false (CliCert.current_inv h)).2.2.1
 
 /-! ### the ghosts mean what they say -/
 
